@@ -8,6 +8,7 @@ From SF Require Import Base.Prelude Gen.Generated Unsized.Types Unsized.Parse Un
 From SF Require Import Unsized.Proofs.EncodeParse Unsized.Proofs.Mem Unsized.Proofs.Notify Unsized.Proofs.Flat Unsized.Proofs.Layout
   Unsized.Proofs.Table Unsized.Proofs.Path Unsized.Proofs.Context Unsized.Proofs.Context2 Unsized.Proofs.Focus Unsized.Proofs.Pos
   Unsized.Proofs.FocusOps Unsized.Proofs.NotifyInside Unsized.Proofs.Resize Unsized.Proofs.GenOps.
+From SF Require Import Unsized.Proofs.EnumFacts.
 
 Arguments Z.add : simpl never.
 Arguments Z.sub : simpl never.
@@ -66,7 +67,7 @@ Lemma notify_keeps_pmb pi : forall t p src c m p' m' it k node,
   notify t p src c m = Ok (p', m') -> get_at t p (mpath pi) = Some (TUList it k, node) ->
   exists node', get_at t p' (mpath pi) = Some (TUList it k, node') /\ pmb_of node' = pmb_of node.
 Proof.
-  induction pi as [|[i|i] r IH]; intros t p src c m p' m' it k node Hn Hg.
+  induction pi as [|[i|i|] r IH]; intros t p src c m p' m' it k node Hn Hg.
   - cbn [mpath map get_at] in *. injection Hg as -> ->.
     destruct node as [| | |a n inner pmb rs re| |]; try (cbn [notify] in Hn; discriminate).
     destruct (notify_ulist_shape _ _ _ _ _ _ _ _ _ _ _ _ _ Hn) as (a' & inner' & rs' & re' & -> & _).
@@ -89,6 +90,13 @@ Proof.
     + exists node. split; [exact Hg|reflexivity].
     + destruct (IH _ _ _ _ _ _ _ _ _ _ Hnq Hg) as (node' & Hg' & Hp).
       exists node'. split; [exact Hg'|exact Hp].
+  - cbn [mpath map mstep_of get_at] in *.
+    destruct t as [| | | | |rw vars]; try discriminate. destruct p as [| | | | |st d q]; try discriminate.
+    destruct (find_variant d vars) as [vt|] eqn:Ef; [|discriminate].
+    rewrite notify_enum, Ef in Hn.
+    destruct (notify vt q src c m) as [[q' m1]| | |] eqn:Hnq; cbn [obind] in Hn; try discriminate. injection Hn as <- _.
+    destruct (IH _ _ _ _ _ _ _ _ _ _ Hnq Hg) as (node' & Hg' & Hp).
+    exists node'. split; [|exact Hp]. cbn [get_at]. rewrite Ef. exact Hg'.
 Qed.
 
 (* ---------------------------------------------------------------------------------------------- *)
